@@ -42,11 +42,12 @@ def site_program(site, op, x, ys):
         elif site == "operand-left":
             body += [("decl", "Signal", r, B("+", ("paren", k), V("a")))]
         elif site == "typed-literal":
-            body += [("decl", "Signal", r, B("+", ("lit", "signal-A", k), V("a")))]
+            body += [("decl", "Signal", r, ("lit", "signal-C", k))]     # the literal itself is the result
         elif site == "cmp-rhs":
             body += [("decl", "Signal", r, B(">=", V("a"), ("paren", k)))]
         elif site == "cond-value":
-            body += [("decl", "Signal", r, ("cond", B(">", V("a"), I(0)), ("paren", k)))]
+            # (distinct conditions: identical results would be merged by CSE, which is C10's business)
+            body += [("decl", "Signal", r, ("cond", B(">", V("a"), I(-n)), ("paren", k)))]
         elif site == "func-arg":
             if n == 0:
                 body += [("func", "addn", [("int", "n"), ("Signal", "s")], [], B("+", V("s"), V("n")))]
@@ -59,7 +60,7 @@ def site_program(site, op, x, ys):
         elif site == "lit-operand-same-type":
             body += [("decl", "Signal", r, B("+", B(op, ("lit", "signal-A", I(x)), I(y)), V("a")))]
         elif site == "cond-int":
-            body += [("decl", "int", f"k{n}", k), ("decl", "Signal", r, ("cond", B(">", V("a"), I(0)), V(f"k{n}")))]
+            body += [("decl", "int", f"k{n}", k), ("decl", "Signal", r, ("cond", B(">", V("a"), I(-n)), V(f"k{n}")))]
         elif site == "ir-fold":
             # a constant reaching a Signal parameter is an IR constant: `s op y` is folded by the IR optimiser
             body += [("func", f"h{n}", [("Signal", "s")], [], B(op, V("s"), I(y))),
@@ -95,6 +96,8 @@ class C11(core.Check):
             for op in OPS:
                 if op not in ARITH and site in ("int-decl", "int-chain", "cond-int"):
                     continue    # a comparison of integers is a Signal: `int k = 1 < 2` is (rightly) refused
+                if site == "lit-operand-same-type" and op not in ("+", "/", "OR", "<"):
+                    continue    # structurally broken on the pinned tree (C11-F3): a small sample is enough
                 xs = VALUES if full else SMALL
                 for x in xs:
                     ys = [y for y in rhs_values(op, full) if defined(op, x, y)]
